@@ -27,6 +27,18 @@ SQV_COMPUTE_ALL_W(MultiplicationProxy)
 SQV_COMPUTE_ALL_W(iCommutatorProxy)
 SQV_COMPUTE_ALL_W(ACommutatorProxy)
 SQV_COMPUTE_ALL_W(MulOp)
+
+// every non-template member of the expression base class (conversions, negation of lvalue and rvalue expressions,
+// combination with scalars and vectors), for every operation
+template struct EvaluationProxy<EvolutionProxy>;
+template struct EvaluationProxy<FastEvolutionProxy>;
+template struct EvaluationProxy<AdditionProxy>;
+template struct EvaluationProxy<SubtractionProxy>;
+template struct EvaluationProxy<NegationProxy>;
+template struct EvaluationProxy<MultiplicationProxy>;
+template struct EvaluationProxy<iCommutatorProxy>;
+template struct EvaluationProxy<ACommutatorProxy>;
+template struct EvaluationProxy<BinaryElementwiseOpProxy<std::multiplies<double>>>;
 } // namespace detail
 
 #define SQV_ASSIGN(W, P) template SU_vector& SU_vector::assignProxy<detail::W, detail::P>(const detail::P&);
